@@ -546,4 +546,44 @@ def search (K : Kinds) (p : Pat) (t : Tree) : List Tree :=
     if isFull K la then (walk K t).filter (fun n => (matchNode K p [] n).isSome)       -- `walk_all = True`
     else ((walk K t).filter (fun n => la.contains n.kind)).filter (fun n => (matchNode K p [] n).isSome)
 
+/-! ### `search` as a stream of walk events (`on = 'enter' | 'leave' | 'both'`) -/
+
+mutual
+/-- `FST.walk(True, 'both')`: every AST node once with `leaving = false` before its children and once with
+`leaving = true` after them -/
+def walkBoth (K : Kinds) : Tree → List (Tree × Bool)
+  | .node i k ks =>
+    if K.all.contains k then (.node i k ks, false) :: (walkBothList K ks ++ [(.node i k ks, true)]) else walkBothList K ks
+termination_by structural t => t
+def walkBothList (K : Kinds) : List Tree → List (Tree × Bool)
+  | [] => []
+  | t :: ts => walkBoth K t ++ walkBothList K ts
+termination_by structural ts => ts
+end
+
+/-- the `on` parameter of `walk` / `search` -/
+inductive On where
+  | enter | leave | both
+deriving DecidableEq, Repr, Inhabited
+
+def On.keeps : On → Bool → Bool
+  | .enter, leaving => !leaving
+  | .leave, leaving => leaving
+  | .both, _ => true
+
+/-- the events `walk(walk_all, on)` delivers to the loop of `search`: the pre-filter restricts the node kinds -/
+def walkEvents (K : Kinds) (p : Pat) (on : On) (t : Tree) : List (Tree × Bool) :=
+  let evs := (walkBoth K t).filter (fun ev => on.keeps ev.2)
+  match leafAsts K p with
+  | none => evs
+  | some la => if isFull K la then evs else evs.filter (fun ev => la.contains ev.1.kind)
+
+/-- `search(pat, nested=True, on=on)`: at EVERY event `mstate.clear(); m = match_func(pat, f.a, mstate)` for the node
+of that event; the event is yielded with that node's own tags (as `(FSTMatch, leaving)` when `on = 'both'`) -/
+def searchEvents (K : Kinds) (p : Pat) (on : On) (t : Tree) : List (Tree × Bool × TEnv) :=
+  (walkEvents K p on t).filterMap (fun ev =>
+    match matchNode K p [] ev.1 with
+    | none => none
+    | some e => some (ev.1, ev.2, e))
+
 end Pfst.Match
